@@ -81,7 +81,9 @@ OPTS = [
 OPT_LAYERS = c04.OPT_LAYERS
 VAR_LAYERS = c04.VAR_LAYERS
 VARS = c04.VARS
-YAML_TRAPS = ['yes', 'no', 'on', '1e3', '007', '~', 'null', 'True', '0x1F', '1_000', '.5', '12:30']
+YAML_TRAPS = ['yes', 'no', 'on', '1e3', '007', '~', 'null', 'True', '0x1F', '1_000', '.5', '12:30',
+              # multi-line texts, lines ending in blanks or a tab (a block-style YAML scalar cannot hold them)
+              'hello,\t\nworld', 'two  \nlines', 'tail \n', 'x\n\n y', 'a\n b \nc']
 ENV_NAMES = ['e', 'f']
 ENV_KEYS = ['VK_A', 'VK_B', 'VK_C', 'VK_D']
 
